@@ -61,7 +61,7 @@ def plan(tier, seed):
     for backend in ("sql", "lmdb"):
         for i in range(0, len(maps), per):
             shards.append({"backend": backend, "maps": maps[i:i + per], "case_seed": seed * 7919 + i})
-        shards.append({"backend": backend, "mode": "readback", "case_seed": seed * 7919 + 5, "n": 12 if tier == "quick" else 80})
+        shards.append({"backend": backend, "mode": "readback", "case_seed": seed * 7919 + 5, "n": 12 if tier == "quick" else 300})
     return shards
 
 
